@@ -19,7 +19,13 @@ def load_findings():
 
 def run_units(unit_names, tier, workroot, only_runs=None, timeout=None, verbose=False):
     """returns (records, unit_infos).  record = dict(unit, run, kind, name, status, ...)"""
-    units = [E.load_unit(n) for n in unit_names]
+    sel = {}
+    names = []
+    for n in unit_names:
+        if ':' in n:
+            n, rs = n.split(':', 1); sel.setdefault(n, set()).update(rs.split(','))
+        if n not in names: names.append(n)
+    units = [E.load_unit(n) for n in names]
     jobs = []; infos = {}
     for u in units:
         wd = os.path.join(workroot, u['name'])
@@ -27,6 +33,7 @@ def run_units(unit_names, tier, workroot, only_runs=None, timeout=None, verbose=
         for run in u['runs']:
             if tier not in run.get('tiers', ['quick', 'thorough']): continue
             if only_runs and run['id'] not in only_runs: continue
+            if u['name'] in sel and run['id'] not in sel[u['name']]: continue
             jobs.append((u, run, wd))
     results = []
     def work(job):
